@@ -162,7 +162,7 @@ func TestPropSignSteps(t *testing.T) {
 	pool := keys.Pool()
 	ctx := context.Background()
 	ev.Check(t, 1000, 40000, func(t *rapid.T) {
-		g := sgen.New(t, sgen.Opts{BigMaps: true})
+		g := sgen.New(t, sgen.Opts{BigMaps: true, NilDims: true})
 		st := &lstats{unknownDepth: -1}
 		penv := g.EnvMap("penv", 4)
 		if rapid.IntRange(0, 5).Draw(t, "nilpenv") == 0 {
